@@ -39,7 +39,7 @@ static void misuse(World &w, uint32_t op) {
     // NDSize misuse
     case 23: { NDSize a({1, 2}), c({1}); bool r = a < c; (void)r; break; }
     case 24: { NDSize a({1, 2}), c({1}); NDSize s = a + c; (void)s; break; }
-    case 25: { NDSize a({1, 2}); ndsize_t v = a[(size_t)i]; (void)v; break; }
+    case 25: { NDSize a({1, 2}); a[(size_t)i] = 7; nixsym_assert(a[0] == 7 || a[1] == 7, "the element written is one of the two"); break; }
     case 26: { NDSize a; ndsize_t n = a.nelms(); NDSize c = a; c = c; (void)n; break; }
     // uninitialised and deleted handles
     case 27: { DataArray n; n.name(); break; }
